@@ -45,7 +45,10 @@ def main():
             lk.close()
         json.dump({"seed": sid, "results": res, "at": time.strftime("%Y-%m-%dT%H:%M:%SZ", time.gmtime())}, open(os.path.join(d, "result.json"), "w"), indent=1)
         det = [c for c, v in res.items() if v["exit"] == 1 and v["violation"]]
-        if meta.get("expect") == "pass":
+        if meta.get("in_scope") is False:
+            bad = [c for c, v in res.items() if v["exit"] != 0]
+            summary.append((sid, "out of scope of every property; " + ("REPORTED by " + ",".join(bad) if bad else "not reported (as it should be)")))
+        elif meta.get("expect") == "pass":
             bad = [c for c, v in res.items() if v["exit"] != 0]
             summary.append((sid, "FALSE-ALARM by " + ",".join(bad) if bad else "no alarm (as it should be)"))
         else:
